@@ -18,8 +18,16 @@ are sampled.  Oracle clauses (one counter per engine and clause):
   pairs       t1.check(t2) => same (kind, signedness, width) for all ordered
               pairs of physical numeric / bool / temporal types
   stable      a spelling resolves to an equal object before and after the
-              other resolutions of the run (the pandas engine imports
+              other resolutions of the run (a resolution must not re-register
+              types: the pandas engine used to import the duplicate module
               pandera.engines.pyarrow_engine lazily)
+
+Not judged (counted under ``undecided:*``): print/resolve round trip of
+Decimal, parameterised Category, Period / Sparse / Interval / pydantic /
+python-generic types, pyarrow nested / binary / decimal / dictionary types and
+of names pandas itself cannot parse back; datetime units other than "ns" in the
+pandas engine (documented as unsupported); which numpy unit a
+"datetime64[<unit>]" alias keeps (kind only).
 """
 from __future__ import annotations
 
@@ -32,7 +40,7 @@ from ..evidence import Run
 
 PID = "C09"
 SHARDS = {"quick": 1, "thorough": 4}
-N_PARAM = {"quick": 400, "thorough": 6000}
+N_PARAM = {"quick": 1200, "thorough": 16000}
 
 
 def new_run():
@@ -83,9 +91,43 @@ class Ctx9:
         self.physical = {}         # tdesc -> (t, class)
         self.snapshot = {}         # desc(k) -> (k, t)
         self.pa_at_start = "pandera.engines.pyarrow_engine" in sys.modules
+        self._sampled = set()
 
     def c(self, name, n=1):
         self.run.count(f"{self.ad.name}:{name}", n)
+
+    def sample(self, tag, make):
+        """One written-out sample per engine and clause group (evidence.Run
+        keeps the first few only, so they are spread over engines/clauses)."""
+        if tag not in SAMPLE_TAGS.get(self.ad.name, ()) or tag in self._sampled:
+            return None
+        self._sampled.add(tag)
+        return make()
+
+
+# which clause groups are written out as samples, per engine
+SAMPLE_TAGS = {"numpy": ("key",), "pandas": ("family", "param", "pair"),
+               "polars": ("param",), "pyspark": ("key",)}
+
+
+def observed(cx, k, t):
+    """What the monitors saw for one resolved spelling (sample text)."""
+    ad = cx.ad
+    ok_s, s = safe(str, t)
+    ok_i, t2 = safe(ad.E.dtype, t)
+    ok_c, r = safe(t.check, t)
+    out = {"engine": ad.name, "spelling": A.desc(k), "resolved": A.tdesc(t),
+           "printed": s if ok_s else exc_s(s),
+           "resolved_again_equal_and_same_hash": _eqh(t2, t) if ok_i else exc_s(t2),
+           "recognises_itself": truthy(r) if ok_c else exc_s(r)}
+    if ad.roundtrip and ok_s:
+        p = ad.primitive(t)
+        if p == "judge":
+            ok_b, t3 = safe(ad.E.dtype, s)
+            out["printed_name_resolves_back_equal"] = _eqh(t3, t) if ok_b else exc_s(t3)
+        else:
+            out["printed_name_resolves_back_equal"] = "not judged: " + p
+    return out
 
 
 BY_CLASS = [
@@ -331,6 +373,15 @@ def family_clause(cx, label, spellings, expect_class=None, group="family"):
     return good
 
 
+def family_sample(cx, label, spellings, good):
+    return {"engine": cx.ad.name, "family_of_equivalent_spellings": label,
+            "spellings": [A.desc(k) for k in spellings],
+            "resolved": sorted({A.tdesc(t) for _, t in good}),
+            "all_resolved": len(good) == len(spellings),
+            "all_pairwise_equal_and_same_hash": all(
+                _eqh(good[0][1], t) for _, t in good[1:]) if good else None}
+
+
 def registry_phase(cx):
     """Exhaustive enumeration of the engine's registry. Returns completeness."""
     from pandera.engines import engine as eng
@@ -349,8 +400,8 @@ def registry_phase(cx):
         t = resolve(cx, k, f"equivalents:{kk}")
         judged = not isinstance(t, Exception)
         run.case(["key", ad.name, kd], judged,
-                 sample={"engine": ad.name, "spelling": kd,
-                         "resolved": A.tdesc(t) if judged else exc_s(t)})
+                 sample=cx.sample("key", lambda: observed(cx, k, t))
+                 if judged else None)
         if not judged:
             viol(cx, "registry-key-does-not-resolve",
                  {"spelling": kd, "exc": exc_s(t), "bad": [kd]})
@@ -425,11 +476,11 @@ def registry_phase(cx):
 
 def families_phase(cx):
     for label, spellings in cx.ad.families():
+        good = family_clause(cx, label, spellings)
         cx.run.case(["family", cx.ad.name, label,
                      [A.desc(k) for k in spellings]], True,
-                    sample={"engine": cx.ad.name, "family": label,
-                            "spellings": [A.desc(k) for k in spellings]})
-        good = family_clause(cx, label, spellings)
+                    sample=cx.sample("family", lambda: family_sample(
+                        cx, label, spellings, good)))
         for k, t in good:
             cx.snapshot.setdefault(A.desc(k), (k, t))
 
@@ -459,7 +510,14 @@ def pairs_phase(cx):
         for d2, (t2, c2) in phys:
             ok, r = safe(t1.check, t2)
             cx.c("pairs")
-            cx.run.case(["pair", cx.ad.name, d1, d2], True)
+            cx.run.case(["pair", cx.ad.name, d1, d2], True,
+                        sample=cx.sample("pair", lambda: {
+                            "engine": cx.ad.name, "ordered_pairs_of": d1,
+                            "kind_sign_width": c1,
+                            "recognises": sorted(
+                                d for d, (t, _) in phys
+                                if safe(t1.check, t)[0] and truthy(safe(t1.check, t)[1])),
+                            "out_of": len(phys)}) if c1[0] == "int" else None)
             if not ok:
                 if d1 != d2:
                     viol(cx, "pair-check-raises",
@@ -498,11 +556,9 @@ def params_phase(cx, ctx, idxs):
             return
         cx.c("param_cases")
         cx.c("param:" + fam["label"].split("[")[0])
-        cx.run.case(["param", cx.ad.name, fam["label"],
-                     [A.desc(k) for k in fam["spellings"]]], True,
-                    sample={"engine": cx.ad.name, "parameterisation": fam["label"]}
-                    if i < 3 else None)
         if fam.get("class_only"):
+            cx.run.case(["param", cx.ad.name, fam["label"],
+                         [A.desc(k) for k in fam["spellings"]]], True)
             for k in fam["spellings"]:
                 t = resolve(cx, k, "param")
                 cx.c("param-class")
@@ -515,8 +571,13 @@ def params_phase(cx, ctx, idxs):
                           "expected_class": fam["expect_class"],
                           "got_class": cx.ad.native_class(t)})
             continue
-        family_clause(cx, fam["label"], fam["spellings"],
-                      fam.get("expect_class"), group="param-family")
+        good = family_clause(cx, fam["label"], fam["spellings"],
+                             fam.get("expect_class"), group="param-family")
+        cx.run.case(["param", cx.ad.name, fam["label"],
+                     [A.desc(k) for k in fam["spellings"]]], True,
+                    sample=cx.sample("param", lambda: dict(
+                        family_sample(cx, fam["label"], fam["spellings"], good),
+                        first=observed(cx, *good[0]) if good else None)))
 
 
 # ---------------------------------------------------------------------------
@@ -556,21 +617,29 @@ def run(run, ctx):
 
 
 def _floors(run, ctx):
-    q = ctx.tier == "quick"
-    for eng, keys, pairs in [("numpy", 60, 150), ("pandas", 150, 1000),
-                             ("polars", 70, 100), ("pyspark", 55, 30)]:
+    """Floors at about a quarter of what is observed on the repaired tree
+    (quick, seed 0): keys / selfcheck / pairs / family / stable / roundtrip."""
+    table = {
+        #          keys selfcheck pairs family stable roundtrip alias
+        "numpy":   (20,  6,        100,  5,     35,    5,        15),
+        "pandas":  (50,  35,       1000, 15,    100,   18,       15),
+        "polars":  (23,  25,       200,  6,     36,    None,     None),
+        "pyspark": (19,  20,       20,   3,     23,    3,        None),
+    }
+    for eng, (keys, selfc, pairs, fam, stable, rt, alias) in table.items():
         run.floors[f"{eng}:registry_fully_enumerated"] = 1
         run.floors[f"{eng}:registry_equivalents_keys"] = keys
-        run.floors[f"{eng}:selfcheck"] = keys // 5
-        run.floors[f"{eng}:idem"] = keys // 5
+        run.floors[f"{eng}:selfcheck"] = selfc
+        run.floors[f"{eng}:idem"] = selfc
+        run.floors[f"{eng}:hash"] = selfc
         run.floors[f"{eng}:pairs"] = pairs
-        run.floors[f"{eng}:family"] = 3
-        run.floors[f"{eng}:stable"] = keys // 2
+        run.floors[f"{eng}:family"] = fam
+        run.floors[f"{eng}:stable"] = stable
         run.floors[f"{eng}:param_cases"] = (N_PARAM[ctx.tier] // 4) // 4
-    for eng, n in [("numpy", 20), ("pandas", 40), ("pyspark", 8)]:
-        run.floors[f"{eng}:roundtrip"] = n // 2
-    for eng in ("numpy", "pandas"):
-        run.floors[f"{eng}:alias"] = 15
+        if rt is not None:
+            run.floors[f"{eng}:roundtrip"] = rt
+        if alias is not None:
+            run.floors[f"{eng}:alias"] = alias
 
 
 def finalize(run, ctx):
